@@ -18,6 +18,8 @@ var c08Lines = []string{
 	"a:", "2021/01/24:", "notadate:", "  x: 1", "  y:2", "  z: q", "  n: NaN", "  i: -Inf", "  big: 1e999",
 	"  # k: v", "# c", "", "-", "  a: 1", "  b: 2", "b:", "  a//b: 1", "  /: 1", "  \xff\xfe: 1", ":", "\t", "  : 1", "  x: 1 2",
 	"  " + strings.Repeat("long", 80) + ": 3",
+	// notes of odd shapes: a colon with nothing but layout characters behind it, several colons, no blank after the #
+	"  # todo:#", "  # breakfast:             #", "  #:#", "  # a: b: c", "  #", "  # :", "  #x: 1", "  ##", "  # k:\u00a0",
 }
 
 type c08Cmd struct {
